@@ -1,7 +1,175 @@
-"""Small-world zones: TLC enumerates every abstract zone within tiny bounds, checks the listed
-properties on the specification, and exports zones + expected answers for replay against the real
-code (spec -> impl).  Filled in by MCZone / GenZone; returns coverage counters."""
+"""Small-world zones (spec/MCZone.tla).
+
+TLC enumerates every abstract zone within tiny bounds, checks the listed properties on the
+specification itself (invariants C02 C03 C06 C10 C11 of MCZone) and prints each zone together with
+the answers the specification assigns; harness/replay_zone.cc loads the equivalent TZif file into
+the real library and compares every answer (spec -> impl).  The TLC export depends only on the
+specification, so it is cached under build/ keyed by the hash of spec/*.tla + parameters; the replay
+against the code under test is always re-run.
+"""
+import concurrent.futures as cf
+import hashlib
+import json
+import os
+import re
+import time
+
+import tzgen
+import verif as V
+
+INV = {"C01": [], "C02": ["C02"], "C03": ["C03"], "C06": ["C06"], "C10": ["C10", "C02"], "C11": ["C11"], "C14": []}
+KINDS = {"C01": ("B", "LOAD"), "C02": ("M",), "C03": ("C03",), "C06": ("C06",), "C10": ("UB", "M", "B"),
+         "C11": ("N", "P"), "C14": ("B", "M", "N", "P")}
+ALLINV = ["C02", "C03", "C06", "C10", "C11"]
+
+
+def _spec_hash():
+    h = hashlib.sha1()
+    for f in sorted(os.listdir(V.SPEC)):
+        if f.endswith(".tla"):
+            h.update(open(os.path.join(V.SPEC, f), "rb").read())
+    return h.hexdigest()[:12]
+
+
+def _cfg(path, real, palettes, grid, maxtrans, export, shard, nshards):
+    V.write_cfg(path, """SPECIFICATION Spec
+CONSTANTS
+  TMin <- %s
+  TMax <- %s
+  BigBangT <- %s
+  Palettes = {%s}
+  Grid <- %s
+  MaxTrans = %d
+  WinLo <- WinLoV
+  WinHi = 16
+  Export = %s
+  Shard = %d
+  NShards = %d
+  BBNative %s
+INVARIANTS %s Exported
+CHECK_DEADLOCK FALSE
+""" % ((("RealTMin", "RealTMax", "RealBigBang") if real else ("SmallTMin", "SmallTMax", "SmallBigBang")) +
+         (",".join(map(str, palettes)), grid, maxtrans, "TRUE" if export else "FALSE", shard, nshards,
+          "= 0" if real else "<- BBSmall", " ".join(ALLINV))))
+    return path
+
+
+def zone_bytes(z):
+    types = [(t["off"], t["dst"], bytes(t["abbr"])) for t in z["types"]]
+    trans = []
+    if z["bb"]:
+        trans.append((-2 ** 59, z["bb"] - 1))
+    trans += [(t, k - 1) for t, k in z["tr"]]
+    return tzgen.tzif(2, trans, types, b"")
+
+
+def _cs(c):
+    return " ".join(str(x) for x in c)
+
+
+def to_replay_text(zones, out):
+    with open(out, "w") as f:
+        for i, z in enumerate(zones):
+            zid = "p%db%d_%s" % (z["pal"], z["bb"], "_".join("%d.%d" % (t, k) for t, k in z["tr"]) or "none")
+            f.write("Z %s %d %s\n" % (zid, 1 if z["wf"] else 0, zone_bytes(z).hex()))
+            for b in z["B"]:
+                f.write("B %d %s %d %d %s\n" % (b["t"], _cs(b["cs"]), b["off"], 1 if b["dst"] else 0, bytes(b["abbr"]).hex() or "00"))
+            for m in z["M"] or []:
+                if m["kind"] == "ILLFORMED":
+                    continue
+                f.write("M %s %s %d %d %d\n" % (_cs(m["cs"]), m["kind"][0], m["pre"], m["trans"], m["post"]))
+            for tag, key in (("N", "NX"), ("P", "PV")):
+                for n in z[key]:
+                    if n["ok"]:
+                        f.write("%s %d 1 %s %s\n" % (tag, n["t"], _cs(n["from"]), _cs(n["to"])))
+                    else:
+                        f.write("%s %d 0\n" % (tag, n["t"]))
+
+
+def export(tier, seed, verdict):
+    """Runs (or reuses) the TLC enumeration; returns (list of zone dicts, stats)."""
+    if tier == "thorough":
+        palettes, grid, maxtrans, nsh = [1, 2, 3, 4, 5], "GridB", 3, max(2, V.NCPU - 2)
+    else:
+        rot = [[1, 2], [3, 4], [5, 1], [2, 3], [4, 5]][seed % 5]
+        palettes, grid, maxtrans, nsh = rot, "GridA", 2, 8
+    key = "%s-%s-%s-%d" % (_spec_hash(), "".join(map(str, palettes)), grid, maxtrans)
+    cdir = os.path.join(V.BUILD, "smallworld", key)
+    meta = os.path.join(cdir, "meta.json")
+    if os.path.exists(meta):
+        st = json.load(open(meta))
+        zones = [json.loads(l) for l in open(os.path.join(cdir, "zones.ndjson"))]
+        st["cached"] = True
+        return zones, st
+    os.makedirs(cdir, exist_ok=True)
+    t0 = time.time()
+
+    def one(sh):
+        cfg = _cfg(os.path.join(cdir, "gen.%d.cfg" % sh), True, palettes, grid, maxtrans, True, sh, nsh)
+        return V.tlc("MCZone", cfg, workers=1, timeout=6 * 3600, heap="3g", tag="mczone-gen-%d" % sh)
+
+    def small():
+        cfg = _cfg(os.path.join(cdir, "small.cfg"), False, palettes, grid, min(maxtrans, 2), False, 0, 1)
+        return V.tlc("MCZone", cfg, workers=4, timeout=6 * 3600, heap="4g", tag="mczone-small")
+    with cf.ThreadPoolExecutor(max_workers=nsh + 1) as ex:
+        fs = [ex.submit(one, sh) for sh in range(nsh)]
+        fsm = ex.submit(small)
+        rs = [f.result() for f in fs]
+        rsm = fsm.result()
+    zones = []
+    st = {"states": 0, "transitions": 0, "cached": False, "palettes": palettes, "grid": grid, "max_transitions": maxtrans,
+          "invariants_checked_on_spec": ALLINV, "spec_violation": None}
+    for r in rs + [rsm]:
+        st["states"] += r.distinct
+        st["transitions"] += r.generated
+        if r.verdict_violation:
+            st["spec_violation"] = r.tail(30)
+        elif not r.ok:
+            verdict.infra_failure("MCZone: " + r.tail(6))
+            return [], st
+    for r in rs:
+        for ln in r.out.splitlines():
+            if ln.startswith('"ZONE '):
+                # TLC prints the string value quoted and escaped
+                zones.append(json.loads(json.loads(ln)[5:]))
+    st["zones"] = len(zones)
+    st["wellformed"] = sum(1 for z in zones if z["wf"])
+    st["tlc_wall_s"] = round(time.time() - t0, 1)
+    if st["spec_violation"] is None:
+        with open(os.path.join(cdir, "zones.ndjson"), "w") as f:
+            for z in zones:
+                f.write(json.dumps(z) + "\n")
+        json.dump(st, open(meta, "w"))
+    return zones, st
 
 
 def run(pid, tier, seed, verdict):
-    return {"states": 0, "transitions": 0, "replayed": 0, "replayed_answers": 0, "note": "not built yet"}
+    zones, st = export(tier, seed, verdict)
+    if st.get("spec_violation"):
+        verdict.violation("spec:MCZone", "the specification itself violates an invariant of MCZone:\n" + st["spec_violation"])
+        return st
+    if not zones:
+        return st
+    work = V.workdir("smallworld-" + pid)
+    txt = os.path.join(work, "replay.txt")
+    to_replay_text(zones, txt)
+    try:
+        exe = V.build_driver("replay_zone", "asan")
+    except V.BuildError as e:
+        verdict.infra_failure("build failed: %s" % str(e)[-300:])
+        return st
+    r = V.run_driver(exe, [txt], timeout=3000)
+    m = re.search(r"SUMMARY zones=(\d+) loaded=(\d+) answers=(\d+) relations=(\d+) mismatches=(\d+) ub=(\d+)", r.stdout)
+    if r.returncode != 0 or not m:
+        verdict.violation("smallworld-replay-crash:rc%d" % r.returncode, "replay_zone died: " + (r.stderr or r.stdout)[-500:])
+        return st
+    st.update(replayed=int(m.group(1)), replay_loaded=int(m.group(2)), replayed_answers=int(m.group(3)) + int(m.group(4)))
+    want = KINDS[pid]
+    for ln in r.stdout.splitlines():
+        if ln.startswith("MISMATCH "):
+            kind = ln.split()[1]
+            if kind in want:
+                verdict.violation("smallworld:%s" % kind, "spec-generated small-world case disagrees with the code: " + ln[:300],
+                                  {"line": ln})
+    st["replay_mismatches_all_kinds"] = int(m.group(5))
+    return st
